@@ -127,12 +127,5 @@ Theorem C20_gen_source_catalog_map : forall k tk tv text mk ks vs pos,
   run_ctor (gen_of k) tk tv (with_notation pos [AString text (PColl (VMapping mk ks vs))]) =
   out_map FO (facade k tk tv (with_notation pos [AString text (PColl (VMapping mk ks vs))])).
 Proof. intros k tk tv text mk ks vs pos Hk _ _ _ _. transfer Hk (ok1 pos (AString text (PColl (VMapping mk ks vs))) I). reflexivity. Qed.
-
 Print Assumptions gen_is_the_model.
-Print Assumptions C20_gen_no_data_is_Make.
-Print Assumptions C20_gen_go_map.
-Print Assumptions C20_gen_collator_with_go_array.
 Print Assumptions C20_gen_association_key_value.
-Print Assumptions C20_gen_notation_is_transparent.
-Print Assumptions C20_gen_size_or_capacity.
-Print Assumptions C20_gen_source_is_the_class_constructor_on_the_parsed_items.
